@@ -56,8 +56,13 @@ def _(c):
         ev = last_event(x)
         if ev is None:
             return z3.BoolVal(False)
-        if ev[0] == "return":  # returned values pass through unchanged
-            return z3.BoolVal(x.res.tag == "val") and x.r == ev[1]
+        if ev[0] == "return":
+            # returned values pass through unchanged, except that a control *class* becomes an instance
+            v = ev[1]
+            ctl = ("SkipBranch", "SelectBranch", "StopTraversal")
+            if x.res.tag == "exc":
+                return v == L.clsobj(x.res.z) if x.res.z in ctl else z3.BoolVal(False)
+            return And(z3.BoolVal(x.res.tag == "val"), x.r == v, *[v != L.clsobj(n) for n in ctl]) if x.res.tag == "val" else z3.BoolVal(False)
         _, cls, val = ev
         if cls in ("SkipBranch", "SelectBranch", "StopTraversal"):  # raised control == returned instance
             return z3.BoolVal(x.res.tag == "exc" and x.res.z == cls)
